@@ -45,11 +45,11 @@ CLAIMED.update({
 CLAIMED.update({
     'C15': dict(level='proof', technique='Lean 4 theorems on the documented formulas over the reals + range/ordering oracle on Go outputs + correspondence',
                 text='Ranges and band orderings are evaluated directly on the Go outputs of every bounded/banded indicator over valid OHLCV series in all regimes (independent of any reference), '
-                     'the Go code is tied to the Lean model by correspondence, and the range theorems are stated on the documented formulas (see evidence for the theorems proved so far).',
+                     'the Go code is tied to the Lean model by correspondence, and 22 range/ordering theorems are proved over the reals on the documented formulas for every valid OHLCV series, position and period (RSI, MFI, %K, %D bound, Williams %R, Stochastic RSI, Aroon, MFM, CMF, BoP, Bollinger/Keltner/Donchian/Acceleration/Envelope orderings, moving min <= value <= max, std/ATR/Ulcer/band width >= 0), with zero-denominator positions exempt by explicit hypotheses.',
                 design='§6 C15', note=NOTE_COMMON + ' Known findings: Aroon on plateaus, ATR smoothed with a Hull MA.'),
     'C18': dict(level='proof', technique='Lean 4 homogeneity theorems on the model over the reals + bit-exact Go-vs-Go scaling relation with power-of-two factors + correspondence',
                 text='Every indicator output has a declared degree of homogeneity in price and in volume; the relation output(scaled) = factor^degree * output is checked Go-vs-Go bit-for-bit for power-of-two '
-                     'factors on all 61 indicators, the Go code is tied to the Lean model by correspondence, and homogeneity theorems are stated on the model (see evidence for those proved so far).',
+                     'factors on all 61 indicators, the Go code is tied to the Lean model by correspondence, homogeneity theorems (output scaled by k^dp*kv^dv, warm-up unchanged) are proved over the reals for the documented formulas of 52 indicators via structural scaling rules (49 generated + RSI, Stochastic RSI, MFI by hand), and the decision tests of the strategies (comparisons of same-degree quantities, signs, the Stop-Loss test) are proved scale-free; all strategies incl. decorators are additionally run Go-vs-Go under price/volume scaling (identical action streams).',
                 design='§6 C18', note=NOTE_COMMON + ' IEEE scaling by powers of two assumed exact (no overflow/underflow in the generated range). Known finding: Obv.'),
 })
 
